@@ -8,11 +8,11 @@ open MRB
 
 /-- A buffer built from `n ≥ 1` items has length `n`, keeps the supplied contents in order, starts with all
     indices at 0, and is related to the fresh specification state (so every theorem about reachable states applies). -/
-theorem C18_construction (slots : List Nat) (hasW heap owned : Bool) (hlen : 1 ≤ slots.length) :
+theorem C18_construction (slots : List Nat) (hasW heap owned : Bool) (hlen : 1 ≤ slots.length) (hlt : slots.length < 2 ^ 63) :
     let s := St.init slots hasW heap owned
     s.len = slots.length ∧ s.slots = slots ∧ s.p.idx = 0 ∧ s.w.idx = 0 ∧ s.c.idx = 0 ∧ s.pubP = 0 ∧ s.pubW = 0 ∧ s.pubC = 0 ∧
     Rel s (Sp.init slots.length hasW) :=
-  ⟨rfl, rfl, rfl, rfl, rfl, rfl, rfl, rfl, rel_init slots hasW heap owned hlen⟩
+  ⟨rfl, rfl, rfl, rfl, rfl, rfl, rfl, rfl, rel_init slots hasW heap owned hlen hlt⟩
 
 /-- Usable capacity is `n - 1`: right after construction the producer has `n - 1` free slots and worker
     and consumer have nothing; the availabilities sum to `len - 1`. -/
@@ -59,11 +59,8 @@ theorem C18_source_construction :
     (∀ s ∈ Gen.splits, s.bufRef = (if s.storage = .heap then "new" else "from_ref")) ∧
     Gen.concInit = { idxZero := true, flagsFalse := true, counterZero := true, lenIsStorageLen := true, refusesEmpty := true } ∧
     Gen.localInit = Gen.concInit ∧ Gen.iterNewZero = [true, true, true] ∧
-    Gen.pinHeapFromVec = "{Self::from(value.into_boxed_slice())}" ∧
-    Gen.pinRangeMax = "{#[cfg(feature='vmem')]returnsuper::vmem_helper::get_page_size_mul(capacity);#[cfg(not(feature='vmem'))]returncapacity;}" ∧
-    Gen.pinHeapRbCtors = [("from", "{Self::_from(HeapStorage::from(value))}"),
-      ("new_zeroed", "{Self::_from(HeapStorage::from((0..get_range_max(capacity)).map(|_|UnsafeSyncCell::new_zeroed()).collect::<Box<[UnsafeSyncCell<T>]>>()))}"),
-      ("default", "{Self::from(vec![T::default();get_range_max(capacity)])}")] := by
-  refine ⟨rfl, by decide, by decide, by decide, rfl, rfl, rfl, rfl, rfl, rfl⟩
+    Gen.ctorFacts = { fromVecKeepsAll := true, rangeMaxVmemIsPageMultiple := true, rangeMaxPlainIsCapacity := true,
+                      fromWrapsStorage := true, newZeroedHasRangeMax := true, defaultHasRangeMax := true } := by
+  refine ⟨rfl, by decide, by decide, by decide, rfl, rfl, rfl, rfl⟩
 
 end MRB.Props.C18
